@@ -42,5 +42,5 @@ def enumerate_words(alpha, k, first=None, limit=None, suffix=" Z"):
 
 # loop bounds of the harness kit / environment models (their tables are larger than the
 # default bound used for loops of the code under test)
-KIT_RULES = [(r"^env_", r".", 26), (r"^(monitor|sweep|check_queue|ev_|do_send|kquiesce|harness|id_to_user|in_wq|count_on_pipe|q_has|widx|ref_)", r".", 48),
-             (r"^nni_aio_reset$", r".", 6), (r"^nni_id_", r".", 8)]
+KIT_RULES = [(r"^(memcpy|memmove|memcmp)$", r".", 72), (r"^env_", r".", 26), (r"^(monitor|sweep|check_queue|ev_|do_send|kquiesce|harness|id_to_user|in_wq|count_on_pipe|q_has|widx|ref_)", r".", 72),
+             (r"^nni_aio_reset$", r".", 6), (r"^nni_id_", r".", 8), (r"^nni_msg_", r".", 72)]
